@@ -83,6 +83,9 @@ def body(case, ctx):
             ops = b.circuit.operations
         try:
             mapping = O.match(root, b.circuit.circuit_structure, g, dreg)
+        except O.BudgetExhausted:
+            ctx.note("match-budget-exhausted-built")
+            return
         except O.Mismatch as e:
             ctx.fail("structure-built", str(e), facts)
         if mapping is None:
@@ -111,6 +114,8 @@ def body(case, ctx):
             mapping2 = O.match(um, mod.circuit_structure, g, dreg)
         except O.Mismatch as e:
             ctx.fail("structure-unrolled", str(e), facts)
+        except O.BudgetExhausted:
+            ctx.note("match-budget-exhausted-unrolled")
         if mapping2 is not None and not info["ambiguous"]:
             compare_times(ctx, um, mapping2, "unrolled", facts)
 
